@@ -18,7 +18,6 @@ package hash_test
 
 import (
 	"fmt"
-	"os"
 	"sort"
 	"strings"
 	"testing"
@@ -29,35 +28,25 @@ import (
 	"github.com/projectcalico/calico/verifkit/ev"
 )
 
-// c37SigLongPanic is the signature of the finding "GetLengthLimitedID panics (slice bounds out of
-// range) when it has to shorten and maxLength-1-len(prefix) exceeds 43, the length of a base64
-// SHA-256" — reachable through PolicyChainName/ProfileChainName in nftables mode (limit 256).
-const c37SigLongPanic = "c37-shorten-needs-more-than-43-digest-chars-panics"
-
-// c37HashKnown reports whether the finding is listed (then exactly those inputs are skipped and
-// counted).  VERIF_C37_ASSUME_KNOWN is a development switch with the same effect.
-func c37HashKnown() bool {
-	return ev.Known(c37SigLongPanic) || os.Getenv("VERIF_C37_ASSUME_KNOWN") != ""
-}
-
-func c37NeedsShortening(prefix, suffix string, maxLen int) bool {
-	total := len(prefix) + len(suffix)
-	return total > maxLen || (total == maxLen && strings.HasPrefix(suffix, "_"))
-}
-
-// TestVerifC37KnownLongNamePanic is the deterministic confirmation of finding
-// c37-shorten-needs-more-than-43-digest-chars-panics (not matched by the unit's run regex): it
-// FAILS while the defect is present.
-func TestVerifC37KnownLongNamePanic(t *testing.T) {
+// TestVerifC37RegressLongNameNoPanic: regression test for the (fixed) finding
+// c37-shorten-needs-more-than-43-digest-chars-panics — GetLengthLimitedID used to panic with
+// "slice bounds out of range" when it had to shorten and maxLength-1-len(prefix) exceeded 43, the
+// length of a base64 SHA-256 (reached by PolicyChainName/ProfileChainName in nftables mode).
+func TestVerifC37RegressLongNameNoPanic(t *testing.T) {
 	ev.Quiet()
 	defer func() {
 		if r := recover(); r != nil {
 			t.Fatalf("GetLengthLimitedID(\"cali-pi-\", <300 characters>, 256) panicked: %v", r)
 		}
 	}()
-	id := hash.GetLengthLimitedID("cali-pi-", strings.Repeat("a", 300), 256)
+	long := strings.Repeat("a", 300)
+	id := hash.GetLengthLimitedID("cali-pi-", long, 256)
 	if len(id) > 256 || !strings.HasPrefix(id, "cali-pi-") {
 		t.Fatalf("unexpected ID %q", id)
+	}
+	// The literal twin of that shortened ID must not get the same name.
+	if twin := id[len("cali-pi-"):]; hash.GetLengthLimitedID("cali-pi-", twin, 256) == id {
+		t.Fatalf("GetLengthLimitedID(\"cali-pi-\", %q, 256) equals the shortened ID of the 300 character identity: %q", twin, id)
 	}
 }
 
@@ -80,7 +69,7 @@ func c37HashFill(t *rapid.T, n int, label string) string {
 func TestVerifC37LengthLimitedID(t *testing.T) {
 	ev.Quiet()
 	rec := ev.New("C37", "lengthlimited",
-		"a fixed prefix (real chain prefixes, empty, drawn) and maxLength (28, 31, 256 or prefix+15..46) and a set of 2..14 distinct non-empty suffixes: lengths maxLength-2..+2, marker-leading, equal up to the truncation point, the adversarial twin of a shortened ID and its twin. Non-trivial = the set holds a shortened ID together with its literal twin, or two suffixes equal on their first maxLength-len(prefix) characters; distinct = (prefix, maxLength, suffix kinds)",
+		"a fixed prefix (real chain prefixes, empty, drawn) and maxLength (28, 31, 256 or prefix+15..46) and a set of 2..14 distinct non-empty suffixes: lengths maxLength-2..+2, marker-leading, equal up to the truncation point, the adversarial twin of a shortened ID and its twin (also where maxLength leaves room for more than the 43 digest characters: twin = marker + full digest). Non-trivial = the set holds a shortened ID together with its literal twin, or two suffixes equal on their first maxLength-len(prefix) characters; distinct = (prefix, maxLength, suffix kinds)",
 		"suffixes are non-empty (no caller passes an empty identity)", "maxLength leaves >=14 digest characters; digest-prefix collisions are not searched")
 	defer rec.Write()
 	rapid.Check(t, func(t *rapid.T) {
@@ -93,15 +82,6 @@ func TestVerifC37LengthLimitedID(t *testing.T) {
 			maxLen = len(prefix) + rapid.IntRange(15, 46).Draw(t, "roomForSuffix")
 		}
 		room := maxLen - len(prefix) // suffixes up to this length fit
-		// Known finding: shortening with more than 43 digest characters of room panics.
-		avoid := func(suffix string) bool {
-			if maxLen-1-len(prefix) > 43 && c37NeedsShortening(prefix, suffix, maxLen) && c37HashKnown() {
-				rec.Excluded(c37SigLongPanic)
-				return true
-			}
-			return false
-		}
-
 		type item struct {
 			suffix string
 			kind   string
@@ -115,16 +95,19 @@ func TestVerifC37LengthLimitedID(t *testing.T) {
 			have[s] = true
 			items = append(items, item{s, kind})
 		}
-		twinPair, truncPair := false, false
+		twinPair, truncPair, fullDigestTwin := false, false, false
 		n := rapid.IntRange(2, 8).Draw(t, "nSuffixes")
 		for i := 0; i < n; i++ {
-			switch rapid.IntRange(0, 6).Draw(t, "suffixKind") {
+			switch rapid.IntRange(0, 8).Draw(t, "suffixKind") {
 			case 0: // around the limit
 				l := room + rapid.IntRange(-2, 2).Draw(t, "lenDelta")
 				add(c37HashFill(t, l, "text"), "near-limit")
 			case 1: // marker-leading, around the limit
 				l := room + rapid.IntRange(-2, 2).Draw(t, "lenDelta")
 				add("_"+c37HashFill(t, l-1, "text"), "marker-near-limit")
+			case 7: // marker-leading, around the length of a shortened ID that holds the full digest (1+43)
+				l := 44 + rapid.IntRange(-1, 1).Draw(t, "lenDelta")
+				add("_"+c37HashFill(t, l-1, "text"), "marker-near-full-digest-length")
 			case 2: // short / marker only
 				add(rapid.SampledFrom([]string{"_", "__", "a", "_a", "eth0", "_eth0"}).Draw(t, "short"), "short")
 			case 3: // long, and a sibling that only differs after the truncation point
@@ -152,9 +135,6 @@ func TestVerifC37LengthLimitedID(t *testing.T) {
 					src = c37HashFill(t, room+rapid.IntRange(1, 40).Draw(t, "extra"), "text")
 					add(src, "long")
 				}
-				if avoid(src) {
-					continue
-				}
 				id := hash.GetLengthLimitedID(prefix, src, maxLen)
 				if !strings.HasPrefix(id, prefix) {
 					t.Fatalf("GetLengthLimitedID(%q,%q,%d)=%q lost the prefix", prefix, src, maxLen, id)
@@ -163,11 +143,12 @@ func TestVerifC37LengthLimitedID(t *testing.T) {
 				if twin != src {
 					add(twin, "twin")
 					twinPair = true
-					if !avoid(twin) {
-						id2 := hash.GetLengthLimitedID(prefix, twin, maxLen)
-						if strings.HasPrefix(id2, prefix) && id2[len(prefix):] != twin {
-							add(id2[len(prefix):], "twin-of-twin")
-						}
+					id2 := hash.GetLengthLimitedID(prefix, twin, maxLen)
+					if strings.HasPrefix(id2, prefix) && id2[len(prefix):] != twin {
+						add(id2[len(prefix):], "twin-of-twin")
+					}
+					if maxLen-1-len(prefix) > 43 {
+						fullDigestTwin = true
 					}
 				}
 			}
@@ -181,9 +162,6 @@ func TestVerifC37LengthLimitedID(t *testing.T) {
 		kinds := map[string]bool{}
 		shortened := 0
 		for _, it := range items {
-			if avoid(it.suffix) {
-				continue
-			}
 			kinds[it.kind] = true
 			id := hash.GetLengthLimitedID(prefix, it.suffix, maxLen)
 			if again := hash.GetLengthLimitedID(prefix, it.suffix, maxLen); again != id {
@@ -214,6 +192,9 @@ func TestVerifC37LengthLimitedID(t *testing.T) {
 		}
 		if shortened < len(items) {
 			classes = append(classes, "some-literal")
+		}
+		if fullDigestTwin {
+			classes = append(classes, "twin-in-full-digest-regime(room>44)")
 		}
 		rec.Case(twinPair || truncPair, fmt.Sprintf("%q/%d/%s", prefix, maxLen, strings.Join(ks, ",")), func() any {
 			var ss []string
